@@ -7,6 +7,7 @@ from ..dbx import DB, BuildFailure, Builder, make_engines
 
 ID = "C02"
 LEVEL = "translation_validation"
+TECHNIQUE = "runtime monitoring (translation validation): compiled SQL executed on SQLite vs reference model, both scan orders"
 RULE = (
     "seeded random programs of factory calls inside one sql.Engine (calculation, projection, selection, "
     "deduplication, sort, slice, join with/without predicate, chain, nested and shared operands, hidden-column "
